@@ -8,7 +8,7 @@ CODONS = [x + y + z for x in B for y in B for z in B]
 RULE = ("table N for N in -1..40 (the 25 ids and the absent ones); tr: every id x every one of the 64 codons as its own case "
         "(exhaustive), every id x the 192-letter string of all codons, in upper, lower and mixed case; split: random A/C/G/T strings "
         "(length log-uniform 1..3000, random case) under every id, EVERY codon-boundary split point for lengths up to 300 (quick) / "
-        "3000 (thorough) and 8 random split points beyond; case: random re-casing masks; tail: every partial tail of length 0..2; "
+        "700 (thorough) and for one string of 900 / 3000 letters, 8 / 24 random split points otherwise; case: random re-casing masks; tail: every partial tail of length 0..2; "
         "lengths around block sizes (255..8194; to 262145 thorough); histories on one table instance (translate / re-weight in place / "
         "swap two entries' letters in place); the same under tables re-weighted (deep copy + OptimizeTable) from random coding sequences and under hand-written "
         "text tables; the two error branches. Out of domain (correspondence only): strings with N/U/other ASCII letters, "
@@ -54,7 +54,7 @@ def cases(seed, tier):
     yield ["split", "id:11", "ATG", "all"]
     # --- random strings x all ids x split points
     nper = 5 if not thorough else 30
-    allmax = 300 if not thorough else 3000
+    allmax = 300 if not thorough else 700
     for i in IDS:
         for _ in range(nper):
             k = loglen(r, 1, 3000)
@@ -62,7 +62,7 @@ def cases(seed, tier):
             if k <= allmax:
                 yield ["split", "id:%d" % i, s, "all"]
             else:
-                yield ["split", "id:%d" % i, s, ",".join(str(r.randrange(0, k // 3 + 1)) for _ in range(8))]
+                yield ["split", "id:%d" % i, s, ",".join(str(r.randrange(0, k // 3 + 1)) for _ in range(8 if not thorough else 24))]
             yield ["case", "id:%d" % i, s, randword(r, "ul", r.randint(1, 9))]
             for t in ["", "A", "g", "AC", "tG"]:
                 yield ["tail", "id:%d" % i, s, t]
